@@ -86,12 +86,13 @@ const (
 	dstOtherFS
 	dstOtherFSExisting
 	dstOtherFSSymlinkBack
+	dstDevFull // /dev/full: can be opened for writing, every write fails with ENOSPC (a full disk)
 	numDst
 )
 
 var srcNames = []string{"regular", "via-symlink", "missing"}
 var dstNames = []string{"missing", "existing-shorter", "existing-longer", "existing-same-length", "same-path", "dot-slash-spelling", "symlink-to-source", "hardlink-to-source", "directory", "parent-missing", "parent-is-file",
-	"other-fs", "other-fs-existing", "other-fs-symlink-back-to-source"}
+	"other-fs", "other-fs-existing", "other-fs-symlink-back-to-source", "device-where-every-write-fails"}
 
 type scen struct {
 	move    bool
@@ -162,8 +163,13 @@ func (s scen) nontrivial() bool {
 
 // run builds the scenario, performs the call and judges the outcome. "" = fine; skipped = class not available.
 func run(s scen) (msg string, skipped bool) {
-	if s.dst >= dstOtherFS && otherFS == "" {
+	if s.dst >= dstOtherFS && s.dst != dstDevFull && otherFS == "" {
 		return "", true
+	}
+	if s.dst == dstDevFull {
+		if fi, err := os.Stat("/dev/full"); err != nil || fi.Mode()&os.ModeCharDevice == 0 {
+			return "", true
+		}
 	}
 	dir, err := os.MkdirTemp("", "c18-")
 	if err != nil {
@@ -171,7 +177,7 @@ func run(s scen) (msg string, skipped bool) {
 	}
 	defer os.RemoveAll(dir)
 	var odir string
-	if s.dst >= dstOtherFS {
+	if s.dst >= dstOtherFS && s.dst != dstDevFull {
 		odir, err = os.MkdirTemp(otherFS, "c18-")
 		if err != nil {
 			return "", true
@@ -242,6 +248,8 @@ func run(s scen) (msg string, skipped bool) {
 		dstPath = filepath.Join(odir, "dest.link")
 		must(os.Symlink(realSrc, dstPath))
 		aliasing = true
+	case dstDevFull:
+		dstPath = "/dev/full"
 	}
 	if s.src == srcMissing {
 		aliasing = false
@@ -279,6 +287,12 @@ func run(s scen) (msg string, skipped bool) {
 		return "", false
 	}
 	// success
+	if s.dst == dstDevFull {
+		if s.size == 0 {
+			return "", false // nothing had to be written
+		}
+		return fmt.Sprintf("returned nil although not a single byte of the %d can have reached the destination (every write to it fails)", s.size), false
+	}
 	gotDst, err := os.ReadFile(dstPath)
 	if err != nil {
 		return fmt.Sprintf("returned nil but the destination cannot be read: %v", err), false
